@@ -30,6 +30,21 @@ def run(rep, tier, seed, replay):
                        "python property oracle gen/c20.py:oracle evaluated on the implementation's output"]))
     model = ltv.build_model("C20")
     impl = ltv.build_harness("c20", ["c20.cc", "common/session.cc"], libs=["-lcrypto"])
+    # constants of the COMPILED code vs. the translated ones (ROBUSTNESS rule 3)
+    try:
+        comp = dict(l.split("=") for l in ltv.run_lines(impl, [], args=["--params"])[0] if "=" in l)
+        gen_txt = open(ltv.os.path.join(ltv.COQ, "C20", "ParamsGen.v")).read()
+        diff = []
+        for k, v in comp.items():
+            mm = ltv.re.search(r"Definition %s : N := (\d+)%%N" % k, gen_txt)
+            if mm and mm.group(1) != v:
+                diff.append("%s: translated %s, compiled %s" % (k, mm.group(1), v))
+        rep.cov["params_compiled"] = comp
+        if diff:
+            rep.violation("constants translated from the sources differ from the compiled code (gen/params_c20.py is stale): " + "; ".join(diff),
+                          theorem="params_ok_now", found_input=False)
+    except Exception as ex:  # noqa
+        rep.cov["params_compiled"] = "unavailable: %s" % ex
     if replay:
         cases = [json.load(open(replay))["case"]]
         stats = {"replay": 1}
@@ -38,7 +53,18 @@ def run(rep, tier, seed, replay):
             cases = []
     else:
         cases, stats = G.gen(seed, tier)
-    mo = ltv.run_sharded(model, cases)
+    # the order policy of SocketAddressCompact_less is not constrained by the property: probed on the compiled code,
+    # the model runs with the probed policy (ROBUSTNESS rule 4); the PEX theorems hold for every policy
+    order = "00"
+    try:
+        pr = [l for l in ltv.run_lines(impl, [], args=["--probe-order"], timeout=120)[0] if l.startswith("ord=")]
+        if pr and ltv.re.fullmatch(r"ord=[01][01]", pr[0]):
+            order = pr[0][4:]
+    except Exception:  # noqa
+        pass
+    rep.cov["pex_order_policy_probed"] = {"addr": "numeric" if order[0] == "1" else "raw-little-endian", "port": "numeric" if order[1] == "1" else "raw-little-endian"}
+    menv = {"C20_ORD": order}
+    mo = ltv.run_sharded(model, cases, env=menv)
     io = ltv.run_sharded(impl, cases, timeout=900)
     nontrivial, mism, samples = set(), 0, []
     unmodelled = 0
